@@ -51,6 +51,15 @@ check("C16", "DESIGN.md 5/C16",
       "and random deep expressions recorded from the real code are validated by TLC.",
       "Trusted: conversion of the float (A, b) to fractions with denominator <= 1e6; small literals keep Rat.tla inside 32-bit integers.")
 
+check("C20", "DESIGN.md 5/C20",
+      "TLA+ model Calculus.tla with the exact finite-difference law model-checked in TLC; exhaustive replay through "
+      "Formula.differentiate / ModelSpec.differentiate and materialisation",
+      "TLC proves for every formula in the bound that differentiation preserves the number and order of terms, that every multilinear "
+      "term obeys the exact finite-difference law on integer rows (h = 1, 2) and that successive differentiation composes; every case is "
+      "executed by the real code: term lists compared, derivative terms materialised and compared with the model's exact columns and "
+      "with finite differences of the materialised original term.",
+      "Trusted: materialisation of a single numeric term; use_sympy=True is out of scope (sympy is not installed).")
+
 NOT_YET = "check not yet built in this round (planned; see DESIGN.md section 5)"
 
 
